@@ -43,6 +43,8 @@ THEOREMS = [
     "C12_input_untouched_refuted_old", "C12_extid_roundtrip_refuted_old",
     "C12_roundtrip_refuted_untyped_raw_manifest", "C12_schema_matches_generated",
     "C12_valid_satisfiable", "C12_swhid_contract_satisfiable",
+    "C12_legacy_extra_headers_dict", "C12_constructor_fixed", "C12_constructor_output_wf",
+    "C12_constructor_output_wf_needs_typing", "C12_roundtrip_constructed", "C12_idf_invariant_satisfiable",
 ]
 RULE = ("objects of the 18 model classes generated from the attrs schemas: full presence matrix of the optional "
         "fields (exhaustive up to 8, sampled beyond), every admissible context subset of RawExtrinsicMetadata per "
